@@ -155,6 +155,25 @@ def runs(item):
     return out
 
 
+@common.safe
+def interleaved(item):
+    """Both lattice types of one decoder class, same dimensions, through
+    geometry and a few runs in ONE process, A then B then A again."""
+    dname, cnames, size, tier = item
+    out = []
+    for rnd, cname in enumerate([cnames[0], cnames[1], cnames[0]]):
+        if not codes.in_family(cname, tuple(size)):
+            continue
+        # a few decodes first (they fill whatever the decoder remembers) ...
+        rs = runs((dname, cname, tuple(size), 'quick', rnd, 3))
+        g = geometry((dname, cname, tuple(size)))
+        for r in (rs if isinstance(rs, list) else [rs]) + [g]:
+            if isinstance(r, dict) and '_label' in r:
+                r['_label'] += f' (interleaved with {cnames[1 - (rnd % 2)]}, round {rnd})'
+            out.append(r)
+    return out
+
+
 def eval_traces(recs):
     work = common.scratch_dir('c10')
     # group records by lattice so that the (large) stabs are not repeated
@@ -246,12 +265,17 @@ def run(tier):
     nparts = 4
     jobs = [(d, c, s, tier, part, nparts) for (d, c, s) in lats for part in range(nparts)]
     rr = common.pmap(runs, jobs, procs=15)
+    ijobs = [('SweepDecoder3D', ['Planar3DCode', 'Toric3DCode'], (3, 3, 3), tier),
+             ('SweepDecoder3D', ['Toric3DCode', 'Planar3DCode'], (2, 3, 3), tier),
+             ('RotatedSweepDecoder3D', ['RotatedPlanar3DCode', 'RotatedToric3DCode'], (2, 2, 2), tier)]
+    for x in common.pmap(interleaved, ijobs, procs=3):
+        rr.append(x if isinstance(x, list) else [x])
     recs = common.split_raised('C10', v, geo)
     for x in rr:
         if isinstance(x, dict):
             recs += common.split_raised('C10', v, [x])
         else:
-            recs += x
+            recs += common.split_raised('C10', v, x)
     for j, r in enumerate(recs):
         r['id'] = j
     rej, st = eval_traces(recs)
@@ -265,6 +289,12 @@ def run(tier):
                       'first_bad_step': first,
                       'step': (r['steps'][first - 1] if r['kind'] == 'run' and first >= 1 else None),
                       'bad_edges': ([t for t in r['toggles']][:3] if r['kind'] == 'geometry' else None)})
+    def _corrupt(r):
+        if r['kind'] != 'run' or r['id'] in rej or not r['steps'] or not r['steps'][0]['flips']:
+            return None
+        r['steps'][0]['flips'] = r['steps'][0]['flips'][1:]
+        return r
+    common.binding_selftest('c10', 'Sweep_Trace', recs, _corrupt, evaluator=eval_traces)
     rc = v.finish()
     n_runs = len([r for r in recs if r['kind'] == 'run'])
     n_steps = sum(len(r['steps']) for r in recs)
